@@ -124,7 +124,7 @@ def result_tables(alg, spec):
     t = dict(Fn=r.Fn_poles, Xi=r.Xi_poles, Phi=r.Phi_poles)
     if not spec["cls"].startswith("pLSCF"):
         t.update(Lam=r.Lambds, FnC=r.Fn_poles_cov, XiC=r.Xi_poles_cov, PhiC=r.Phi_poles_cov)
-    return {k: (None if v is None else np.asarray(v)) for k, v in t.items()}
+    return {k: (None if v is None else np.array(v, copy=True)) for k, v in t.items()}
 
 
 def indicator(f, v):
@@ -535,11 +535,29 @@ def function_stream(ctx, rng, n):
         ctx.count(case, nontrivial=bool(np.isfinite(X).any()))
         ctx.hist("function-stream shape", (nr, nc))
         # implementation
-        fl, m1 = gen.HC_conj(Lam.copy())
-        fx, m2 = gen.HC_damp(X.copy(), xmax)
-        fc, m5 = gen.HC_cov(F.copy(), cmax)
-        msk = np.asarray(m2).astype(bool)
-        am = gen.applymask([F.copy(), P.copy(), None, Lam.copy()], msk, nch)
+        args = dict(HC_conj=[Lam.copy()], HC_damp=[X.copy()], HC_cov=[F.copy()], applymask=[F.copy(), P.copy(), Lam.copy()], HC_phi_comp=[P.copy()])
+        orig = dict(HC_conj=[Lam], HC_damp=[X], HC_cov=[F], applymask=[F, P, Lam], HC_phi_comp=[P])
+        fl, m1 = gen.HC_conj(args["HC_conj"][0])
+        fx, m2 = gen.HC_damp(args["HC_damp"][0], xmax)
+        fc, m5 = gen.HC_cov(args["HC_cov"][0], cmax)
+        msk = np.asarray(m2).astype(bool).copy()
+        msk_arg = msk.copy()
+        am = gen.applymask([args["applymask"][0], args["applymask"][1], None, args["applymask"][2]], msk_arg, nch)
+        fl, fx, fc = np.array(fl, copy=True), np.array(fx, copy=True), np.array(fc, copy=True)
+        am = [None if a is None else np.array(a, copy=True) for a in am]
+
+        def untouched(fn):
+            # the functions are filters: the tables (and mask) handed to them must be bit-identical afterwards, otherwise a caller
+            # that keeps the unfiltered table (to filter it again with other criteria) silently loses poles
+            for a, b in zip(args[fn], orig[fn]):
+                if a.shape != b.shape or a.tobytes() != b.tobytes():
+                    ctx.fail("correspondence", "gen.%s modifies the array it is given (the model function is pure): filtering the same table again "
+                             "with other criteria would start from an already blanked table" % fn, case, key="C09:%s:mutates-input" % fn)
+                    return
+        for fn in ("HC_conj", "HC_damp", "HC_cov", "applymask"):
+            untouched(fn)
+        if msk_arg.tobytes() != msk.tobytes():
+            ctx.fail("correspondence", "gen.applymask modifies the mask it is given", case, key="C09:applymask:mutates-mask")
         # model
         dall, _ = cdef(P)
         exprs.append("showTC (fst (hc_conj %s)) ++ \"|\" ++ showM (snd (hc_conj %s))" % (t2(Lam, oc), t2(Lam, oc)))
@@ -553,7 +571,8 @@ def function_stream(ctx, rng, n):
         lim_c = quant(flatv(impc), rng.random(), rng, bool(rng.random() < 0.4))
         lim_d = quant(flatv(impd), rng.random(), rng, bool(rng.random() < 0.4))
         if lim_c is not None and lim_d is not None:
-            m_mpd, m_mpc = gen.HC_phi_comp(P.copy(), lim_c, lim_d)
+            m_mpd, m_mpc = gen.HC_phi_comp(args["HC_phi_comp"][0], lim_c, lim_d)
+            untouched("HC_phi_comp")
             fl_ = lambda t: clist([oq(x) for x in flatv(t)])
             exprs.append("let mm := hc_phi_comp nat (tok_ind %d %s) (tok_ind %d %s) (tok_tbl3 %d %d %d %s) %s %s in showM (fst mm) ++ \"|\" ++ showM (snd mm)"
                          % (nch, fl_(impc), nch, fl_(impd), nr, nc, nch, bools(dall), qq(lim_c), qq(lim_d)))
@@ -649,17 +668,177 @@ def run_config(ctx, spec, hcs, exprs, meta, corpus=False):
         except Exception as e:
             ctx.fail("oracle", "%s.run raised %s with criteria %s" % (spec["cls"], type(e).__name__, hc), case, key="C09:%s:raises" % spec["cls"])
             continue
-        bad, nj = oracle(U, R, mpc, mpd, dict(hc, cov_max=hc.get("cov_max", 1.0)), pl)
-        ctx.not_judged += nj
-        alive = int((~np.isnan(R["Fn"])).sum())
-        total = int((~np.isnan(U["Fn"])).sum())
-        ctx.count(case, nontrivial=bool(0 < alive < total) or mode == "neutral")
-        ctx.hist("surviving fraction", "none" if alive == 0 else ("all" if alive == total else ("<10%" if 10 * alive < total else "%d0%%" % min(9, int(10 * alive / max(total, 1))))))
-        ctx.sample(dict(case, poles_unfiltered=total, poles_left=alive), limit=4)
-        for what, site in bad[:3]:
-            ctx.fail("oracle", "%s: %s" % (spec["cls"], what), case, key="C09:%s:%s" % (spec["cls"], site))
-        exprs.append(coq_case(U, mpc, mpd, dict(hc, cov_max=hc.get("cov_max", 1.0)), pl))
-        meta.append((case, R, U, pl))
+        judge(ctx, case, spec["cls"], U, mpc, mpd, R, hc, pl, exprs, meta, "", mode == "neutral")
+
+
+def judge(ctx, case, cls, U, mpc, mpd, R, hc, pl, exprs, meta, stage, neutral=False):
+    """Oracle now, model comparison later, for one finished run; hc is the harness's OWN copy of what the user passed."""
+    bad, nj = oracle(U, R, mpc, mpd, dict(hc, cov_max=hc.get("cov_max", 1.0)), pl)
+    ctx.not_judged += nj
+    alive = int((~np.isnan(R["Fn"])).sum())
+    total = int((~np.isnan(U["Fn"])).sum())
+    ctx.count(case, nontrivial=bool(0 < alive < total) or neutral)
+    ctx.hist("surviving fraction", "none" if alive == 0 else ("all" if alive == total else ("<10%" if 10 * alive < total else "%d0%%" % min(9, int(10 * alive / max(total, 1))))))
+    ctx.sample(dict(case, poles_unfiltered=total, poles_left=alive), limit=4)
+    for what, site in bad[:3]:
+        ctx.fail("oracle", "%s%s: %s" % (cls, " (%s)" % stage if stage else "", what), case, key="C09:%s:%s%s" % (cls, stage + ":" if stage else "", site))
+    exprs.append(coq_case(U, mpc, mpd, dict(hc, cov_max=hc.get("cov_max", 1.0)), pl))
+    meta.append((case, R, U, pl, stage))
+
+
+# ----------------------------------------------------------------------------------------------- sequences and several objects
+NEUTRAL = dict(conj=False, xi_max=2.0, mpc_lim=-1.0, mpd_lim=10.0, cov_max=1.7e308)
+DEFAULT_HC = dict(conj=True, xi_max=0.1, mpc_lim=0.7, mpd_lim=0.3, cov_max=0.2)  # documented defaults of SSIRunParams / pLSCFRunParams
+DATA_KEYS = ("seed", "noise", "kind", "n", "nch", "nref", "nmov", "n2")
+
+
+def clean(spec):
+    return {k: v for k, v in spec.items() if not k.startswith("_")}
+
+
+def hc_for(spec, hc):
+    return {k: v for k, v in hc.items() if not (k == "cov_max" and spec["cls"].startswith("pLSCF"))}
+
+
+def reference(ctx, spec):
+    """Unfiltered tables + indicators for one (data, algorithm) configuration, from a throw-away setup and object."""
+    setup = build_setup(spec)
+    alg0 = run_class(setup, spec, NEUTRAL if not spec["cls"].startswith("pLSCF") else hc_for(spec, NEUTRAL), "ref")
+    U = unfiltered(alg0, spec)
+    U["_pl"] = spec["cls"].startswith("pLSCF")
+    mpc, mpd = indicators(U["Phi"])
+    return U, mpc, mpd
+
+
+def set_criteria(alg, spec, hc, how):
+    """The ways a user changes the criteria of an existing algorithm object between two runs."""
+    if how == "set_run_params":
+        alg.set_run_params(alg.RunParamCls(hc=dict(hc), **alg_kwargs(spec)))
+    elif how == "attr":
+        alg.run_params.hc = dict(hc)
+    else:  # "update": the dict held by the run parameters is edited in place
+        alg.run_params.hc.update(dict(hc))
+
+
+def seq_hcs(rng, U, mpc, mpd, pattern):
+    """Criteria records of one re-run sequence (tight->loose, loose->tight, conj off/on)."""
+    xi = np.sort(U["Xi"][U["Xi"] > 0])
+    tight = float(xi[max(0, int(0.3 * len(xi)) - 1)] * 1.0001) if len(xi) else 0.01
+    loose = dict(conj=False, xi_max=1.0, mpc_lim=0.0, mpd_lim=float(np.pi / 2), cov_max=1e300)
+    b1, b2 = gen_hc(rng, U, mpc, mpd, "bite"), gen_hc(rng, U, mpc, mpd, "bite")
+    if pattern == "tight-loose":
+        return [dict(loose, xi_max=tight), dict(loose), dict(b1, conj=True)]
+    if pattern == "loose-tight":
+        return [dict(loose, conj=True), dict(b1, xi_max=tight, conj=False), dict(loose)]
+    if pattern == "conj-toggle":
+        return [dict(b1, conj=False), dict(b1, conj=True), dict(b2, conj=False), dict(loose)]
+    return [b1, dict(DEFAULT_HC), b2, dict(loose, xi_max=tight), dict(loose)]
+
+
+def rerun_sequence(ctx, spec, hcs, hows, exprs, meta, pattern=None):
+    """Several runs of the SAME algorithm object with criteria changed in between; every run is judged against the criteria passed for it."""
+    pl = spec["cls"].startswith("pLSCF")
+    try:
+        U, mpc, mpd = reference(ctx, spec)
+        setup = build_setup(spec)
+    except Exception as e:
+        ctx.hist("configurations the library rejects", type(e).__name__)
+        return
+    if hcs is None:
+        hcs = seq_hcs(ctx.np_rng, U, mpc, mpd, pattern)
+    ctx.hist("re-run sequences", spec["cls"] + ("+unc" if spec.get("calc_unc") else "") + " " + (pattern or "given"))
+    alg = None
+    passed = []
+    for j, hc in enumerate(hcs):
+        hc = hc_for(spec, hc)
+        how = "construct" if j == 0 else hows[(j - 1) % len(hows)]
+        passed.append(dict(hc))
+        case = dict(kind="rerun", spec=clean(spec), hcs=[dict(h) for h in passed], hows=list(hows), run_index=j, how=how)
+        try:
+            if alg is None:
+                alg = CLASSES[spec["cls"]](name="seq", hc=dict(hc), **alg_kwargs(spec))
+                setup.add_algorithms(alg)
+            else:
+                set_criteria(alg, spec, hc, how)
+            setup.run_by_name("seq")
+            R = result_tables(alg, spec)
+        except Exception as e:
+            ctx.fail("oracle", "%s: run %d of one object (criteria changed by %s) raised %s" % (spec["cls"], j, how, type(e).__name__), case, key="C09:%s:rerun:raises" % spec["cls"])
+            return
+        judge(ctx, case, spec["cls"], U, mpc, mpd, R, hc, pl, exprs, meta, "rerun")
+
+
+def multi_instance(ctx, groups, exprs, meta):
+    """groups: one list of {spec, hc|None} per setup.  ALL objects of ALL setups are constructed first, then every setup runs
+    run_all, then each result is judged against the criteria passed to ITS constructor (None = the documented defaults)."""
+    built = []
+    try:
+        refs = [[reference(ctx, a["spec"]) for a in algs] for algs in groups]
+        for gi, algs in enumerate(groups):
+            setup = build_setup(algs[0]["spec"])
+            objs = []
+            for ai, a in enumerate(algs):
+                kw = alg_kwargs(a["spec"])
+                if a.get("hc") is not None:
+                    kw["hc"] = dict(hc_for(a["spec"], a["hc"]))
+                if a.get("sc") is not None:
+                    kw["sc"] = dict(a["sc"])
+                objs.append(CLASSES[a["spec"]["cls"]](name="g%da%d" % (gi, ai), **kw))
+            built.append((setup, objs))
+        for setup, objs in built:
+            setup.add_algorithms(*objs)
+        for setup, objs in built:
+            setup.run_all()
+    except Exception as e:
+        ctx.hist("configurations the library rejects", type(e).__name__)
+        return
+    layout = [[dict(spec=clean(a["spec"]), hc=a.get("hc"), sc=a.get("sc")) for a in algs] for algs in groups]
+    ctx.hist("multi-instance layouts", "/".join("+".join(a["spec"]["cls"] for a in algs) for algs in groups))
+    for gi, algs in enumerate(groups):
+        for ai, a in enumerate(algs):
+            spec = a["spec"]
+            hc = hc_for(spec, a["hc"] if a.get("hc") is not None else DEFAULT_HC)
+            U, mpc, mpd = refs[gi][ai]
+            case = dict(kind="multi", spec=clean(spec), hc=hc, groups=layout, judged=[gi, ai])
+            try:
+                R = result_tables(built[gi][1][ai], spec)
+            except Exception as e:
+                ctx.fail("oracle", "%s: no result after run_all (%s)" % (spec["cls"], type(e).__name__), case, key="C09:%s:multi:raises" % spec["cls"])
+                continue
+            judge(ctx, case, spec["cls"], U, mpc, mpd, R, hc, spec["cls"].startswith("pLSCF"), exprs, meta, "multi")
+
+
+def sibling(rng, base, cls, quick):
+    """Another algorithm configuration on the data of `base`."""
+    s = gen_spec(rng, cls, quick, 1)
+    for k in DATA_KEYS:
+        s.pop(k, None)
+        if k in base:
+            s[k] = base[k]
+    s.pop("ref_ind", None)
+    if not cls.startswith("pLSCF"):
+        nref = s.get("nref") or s.get("nch")
+        s["ordmax"] = max(2, int(min(s["ordmax"], s["br"] * nref)))
+    return s
+
+
+def gen_multi(rng, family, quick):
+    fam = {"single": ["SSIcov", "SSIdat", "SSIcov"], "ms": ["SSIcov_MS", "SSIdat_MS", "SSIcov_MS"], "plscf": ["pLSCF", "pLSCF", "pLSCF"],
+           "plscf_ms": ["pLSCF_MS", "pLSCF_MS"], "mixed": ["SSIdat", "pLSCF", "SSIcov", "pLSCF"]}[family]
+    base = gen_spec(rng, fam[0], quick, 1)
+    base["kind"] = "modes"
+    base.pop("ref_ind", None)
+    specs = [base] + [sibling(rng, base, c, quick) for c in fam[1:]]
+    strict = dict(conj=True, xi_max=float(rng.choice([0.02, 0.03, 0.05])), mpc_lim=float(rng.choice([0.8, 0.9])), mpd_lim=float(rng.choice([0.1, 0.2])), cov_max=float(rng.choice([0.01, 0.1])))
+    permissive = dict(conj=bool(rng.random() < 0.5), xi_max=float(rng.choice([0.5, 1.0])), mpc_lim=0.0, mpd_lim=float(np.pi / 2), cov_max=1e300)
+    middle = dict(conj=True, xi_max=0.2, mpc_lim=0.5, mpd_lim=0.5, cov_max=1.0)
+    pool = [strict, permissive, None, middle]  # None: no hc passed, the documented defaults apply
+    order = rng.permutation(len(specs)).tolist()
+    algs = []
+    for j, k in enumerate(order):
+        hc = pool[j % len(pool)]
+        algs.append(dict(spec=specs[k], hc=None if hc is None else dict(hc), sc=dict(err_fn=float(rng.choice([0.01, 0.05])), err_xi=0.05, err_phi=float(rng.choice([0.03, 0.1])))))
+    return algs
 
 
 def run(ctx):
@@ -677,13 +856,34 @@ def run(ctx):
     ]
     exprs, meta = [], []
     # ---- corpus first (repaired defect b6576bf: MPD mask dropped by the second applymask)
-    for path in sorted(glob.glob(os.path.join(VERIF, "corpus", "C09", "*.json"))):
-        c = json.load(open(path))
-        run_config(ctx, dict(c["spec"]), [c["hc"]], exprs, meta, corpus=True)
-    if ctx.replay:
-        c = json.load(open(ctx.replay)).get("case") or {}
-        if "spec" in c and "hc" in c:
+    def replay_case(c):
+        if c.get("kind") == "rerun":
+            rerun_sequence(ctx, dict(c["spec"]), [dict(h) for h in c["hcs"]], list(c.get("hows") or ["set_run_params"]), exprs, meta)
+        elif c.get("kind") == "multi":
+            multi_instance(ctx, [[dict(spec=dict(a["spec"]), hc=a.get("hc"), sc=a.get("sc")) for a in algs] for algs in c["groups"]], exprs, meta)
+        elif "spec" in c and "hc" in c:
             run_config(ctx, dict(c["spec"]), [c["hc"]], exprs, meta, corpus=True)
+
+    for path in sorted(glob.glob(os.path.join(VERIF, "corpus", "C09", "*.json"))):
+        replay_case(json.load(open(path)))
+    if ctx.replay:
+        replay_case(json.load(open(ctx.replay)).get("case") or {})
+    # ---- the SAME object run again after its criteria were changed (tight->loose, loose->tight, conj off/on)
+    patterns = ["tight-loose", "loose-tight", "conj-toggle", "mixed"]
+    hows_pool = [["set_run_params"], ["attr"], ["update"], ["set_run_params", "attr", "update"]]
+    for ci, cls in enumerate(("SSIcov", "SSIcov", "SSIdat", "SSIcov_MS", "SSIdat_MS", "pLSCF", "pLSCF_MS")):
+        for rep in range(ctx.n(2, 6)):
+            spec = gen_spec(rng, cls, ctx.quick(), 0 if (cls == "SSIcov" and ci == 0) else 1)
+            if rep == 0:
+                spec["kind"] = "modes"
+            pat = patterns[(rep + ci) % len(patterns)] if rep < len(patterns) else str(rng.choice(patterns))
+            rerun_sequence(ctx, spec, None, hows_pool[(rep + ci) % len(hows_pool)], exprs, meta, pattern=pat)
+    # ---- several objects created before any of them runs; two setups alive in one process
+    fams = ["single", "ms", "plscf", "plscf_ms", "mixed"]
+    for rep in range(ctx.n(1, 4)):
+        for fam in fams:
+            multi_instance(ctx, [gen_multi(rng, fam, ctx.quick())], exprs, meta)
+        multi_instance(ctx, [gen_multi(rng, "single", ctx.quick()), gen_multi(rng, str(rng.choice(["single", "plscf", "mixed"])), ctx.quick())], exprs, meta)
     # ---- generated configurations
     per_cls = ctx.n(4, 12)
     modes_pool = ["bite", "bite", "bite", "bite", "default", "malformed"]
@@ -699,11 +899,11 @@ def run(ctx):
             run_config(ctx, spec, [], exprs, meta)
             k += 1
     res = ctx.coq_eval(HEADER, exprs, shard=8)  # small shards: each stays far below the per-shard timeout on a loaded machine
-    for (case, R, U, pl), out in zip(meta, res):
+    for (case, R, U, pl, stage), out in zip(meta, res):
         errs = compare_model(out, R, U, pl)
         if errs:
-            ctx.fail("correspondence", "%s result tables differ from run_%s of the model on the unfiltered tables: %s%s"
-                     % (case["spec"]["cls"], "pl" if pl else "ssi", errs[0], " (+%d more)" % (len(errs) - 1) if len(errs) > 1 else ""),
-                     case, key="C09:%s:corr" % case["spec"]["cls"])
+            ctx.fail("correspondence", "%s%s result tables differ from run_%s of the model on the unfiltered tables and the criteria passed for this run: %s%s"
+                     % (case["spec"]["cls"], " (%s)" % stage if stage else "", "pl" if pl else "ssi", errs[0], " (+%d more)" % (len(errs) - 1) if len(errs) > 1 else ""),
+                     case, key="C09:%s:%scorr" % (case["spec"]["cls"], stage + ":" if stage else ""))
     # ---- the criteria functions themselves on synthetic tables
     function_stream(ctx, rng, ctx.n(60, 400))
